@@ -1279,7 +1279,7 @@ def c20(tier):
     client_replay(v, "C20", behs, "dispatch(cover)", {"C20", "C12", "C02"})
     behs = client_behaviours(v, "DispSpec", 3 if not thorough else 4, 2, "paths")
     client_replay(v, "C20", behs, "dispatch(paths)", {"C20", "C12", "C02"})
-    behs = client_behaviours(v, "TreeLastSpec", 5 if not thorough else 7, 4, "paths")
+    behs = client_behaviours(v, "TreeLastSpec", 5 if not thorough else 6, 4, "paths")
     client_replay(v, "C20", behs, "local-tree-histories(paths)", {"C20", "C12", "C02"})
     v.cov["rule"] = ("Client.Connect against CONNACK code 0..5, session present, invalid code, wrong packet, truncated, closed: nil exactly for code 0, else the code, no library "
                      "goroutine left. Client specification, dispatch: Subscribe requests with overlapping filters (a/#, a/+), f/# against f, rejected filters (0x80), Unsubscribe, "
